@@ -192,12 +192,14 @@ func newBufferedBackend(sz uint, ev chan Event, errs chan error) (backend, error
 		doneResp:    make(chan struct{}),
 	}
 
+	simrt.Count("inotify-opened")
 	go w.readEvents()
 	return w, nil
 }
 
 // Returns true if the event was sent, or false if watcher is closed.
 func (w *inotify) sendEvent(e Event) bool {
+	simrt.Logf("fsnotify event %s", e)
 	simrt.Yield("fsn.sendEvent")
 	defer simrt.Yield("fsn.sent")
 	select {
@@ -254,6 +256,7 @@ func (w *inotify) Close() error {
 func (w *inotify) Add(name string) error { return w.AddWith(name) }
 
 func (w *inotify) AddWith(path string, opts ...addOpt) error {
+	simrt.Logf("fsnotify Add(%s)", path)
 	if w.isClosed() {
 		return ErrClosed
 	}
@@ -343,6 +346,7 @@ func (w *inotify) register(path string, flags uint32, recurse bool) error {
 		}
 
 		wd, err := unix.InotifyAddWatch(w.fd, path, flags)
+		simrt.Logf("inotify_add_watch(%s, %#x) = %d %v", path, flags, wd, err)
 		if wd == -1 {
 			return nil, err
 		}
@@ -363,6 +367,7 @@ func (w *inotify) register(path string, flags uint32, recurse bool) error {
 }
 
 func (w *inotify) Remove(name string) error {
+	simrt.Logf("fsnotify Remove(%s)", name)
 	if w.isClosed() {
 		return nil
 	}
@@ -421,6 +426,7 @@ func (w *inotify) readEvents() {
 	defer simrt.TaskExit()
 	defer func() {
 		unix.Close(w.fd)
+		simrt.Count("inotify-closed")
 		close(w.doneResp)
 		close(w.Errors)
 		close(w.Events)
@@ -513,6 +519,7 @@ func (w *inotify) readEvents() {
 			/// we would like to always fill the the "Name" field with a valid
 			/// filename. We retrieve the path of the watch from the "paths"
 			/// map.
+			simrt.Logf("inotify raw wd=%d mask=%#x len=%d", raw.Wd, mask, nameLen)
 			watch := w.watches.byWd(uint32(raw.Wd))
 			/// Can be nil if Remove() was called in another goroutine for this
 			/// path inbetween reading the events from the kernel and reading
